@@ -864,8 +864,11 @@ pub fn run_main(args: &[String]) -> i32 {
         "violations": by_sig.len(),
         "assumptions": def.assumptions,
         "coverage": {
-            "evaluations": res.agg.cases,
-            "distinct_nontrivial": res.agg.nontrivial_hashes.len(),
+            "evaluations": if def.count_subruns { st.sub_runs } else { res.agg.cases },
+            "distinct_nontrivial": if def.count_subruns { res.agg.state_hashes.len() } else { res.agg.nontrivial_hashes.len() },
+            "cases": res.agg.cases,
+            "nontrivial_cases": res.agg.nontrivial_hashes.len(),
+            "counting_note": if def.count_subruns { "evaluations = executions (one per injected fault position / damaged image / deviation); distinct_nontrivial = distinct hashes of those executions' seam logs or damaged images, as counted by the workers; cases = base workloads / base images" } else { "evaluations = cases (complete simulated runs); distinct_nontrivial = distinct (seam log, final image) hashes among the cases that are non-trivial by 'rule'" },
             "rule": def.rule,
             "samples": res.samples,
             "exhaustive": false,
